@@ -90,7 +90,7 @@ def c03(ck, thorough):
     mc(ck, "ACOverlap", "c03_overlap", overlap_consts([False], [False, True], thorough),
        ["OverlapCorrect", "StateSane"], view="View")
     fams = ["f23", "rand:%d:10:6" % (400 if thorough else 60)] + (["f33"] if thorough else [])
-    product(ck, "c03", fams + ["dups", "chains"], full=thorough, shards=4, mks=["std"])
+    product(ck, "c03", fams + ["dups", "chains", "wide"], full=thorough, shards=4, mks=["std"])
     calls(ck, "c03_enum", "enum", scale=2, mks=["std"], an="no", flav="overlap")
     calls(ck, "c03_rand", "rand", scale=10 if thorough else 2, mks=["std"], an="no", flav="overlap")
     # every prefilter variant a standard searcher can carry, haystacks that lead back to the start state
